@@ -240,6 +240,14 @@ def targeted_ops(rng, topo, flavour):
             a, b = rng.sample(top, 2)
             # peer where the *other* side's port name already exists
             out.append(('peer-collision', {'op': 'peer', 'a': tm.name(a), 'b': tm.name(b), 'pre': 'b-has-port'}))
+        # connect_interface derives the names '<node>-<iface>' / '<node>-<iface>-link': a plain link already carrying that name
+        plainfree = [x for x in free if len(x[0]) == 2]
+        if top and len(plainfree) >= 3:
+            t0, l1, l2 = rng.sample(plainfree, 3)
+            lname = f'{t0[0][0]}-{t0[0][1]}-link'
+            out.append(('derived-name-collision', {'op': 'connect_interface', 'service': tm.name(rng.choice(top)), 'iface': t0[0],
+                                                   'pre_ops': [{'op': 'add_link', 'name': lname, 'node_id': None, 'ltype': 'Patch',
+                                                                'interfaces': [l1[0], l2[0]]}]}))
     # --- sub-interfaces
     ded = [x for x in refs if tm.typ(x[1]) == 'DedicatedPort' and len(x[0]) == 2]
     if ded:
@@ -359,6 +367,14 @@ def run_targeted(ctx, imp, store, flavour, tag):
                                        'node_id': None, 'itype': 'TrunkPort'})
                 hist.append({'op': 'service_add_interface', 'service': op['b'], 'name': f"{op['b']}-{op['a']}", 'itype': 'TrunkPort'})
             except Exception:
+                continue
+        if op.get('pre_ops'):
+            try:
+                for po in op['pre_ops']:
+                    topogen.execute(topo, po)
+                    hist.append(po)
+            except Exception:
+                ctx.count('target-setup-refused:' + kind)
                 continue
         r = attempt(ctx, imp, topo, op, 'targeted', flavour, store, hist=list(hist))
         if r in ('raise', 'violation'):
